@@ -299,7 +299,7 @@ class Normalizer:
         return "plain"
 
     # ---------------------------------------------------------------- one inlining
-    def instantiate(self, call, hq, hnode, first, caller_names):
+    def instantiate(self, call, hq, hnode, first, caller_names, keep=None):
         """-> (prelude statements, body statements (with returns), single expression or None)"""
         if hnode.decorator_list and self._kind(hnode) == "other":
             raise Bail("decorated helper")
@@ -358,7 +358,7 @@ class Normalizer:
         for name in stored:
             if name in bind:
                 continue
-            if name in caller_names:
+            if name in caller_names and name != keep:
                 renames[name] = f"{name}__i{tag}"
         sub = _Subst(loads, renames)
         body = [sub.visit(s) for s in body]
@@ -424,7 +424,12 @@ class Normalizer:
             if fctx["budget"] <= 0:
                 break
             try:
-                prelude, body, single = self.instantiate(c, hq, hnode, first, fctx["names"])
+                keep = None
+                if isinstance(s, ast.Assign) and s.value is c and len(s.targets) == 1 and isinstance(s.targets[0], ast.Name) \
+                        and not any(isinstance(n, ast.Name) and n.id == s.targets[0].id for a in list(c.args) + [k.value for k in c.keywords]
+                                    for n in ast.walk(a)):
+                    keep = s.targets[0].id      # the callee's local of the same name IS the target: no rename, no copy
+                prelude, body, single = self.instantiate(c, hq, hnode, first, fctx["names"], keep)
                 res = self.splice(s, c, prelude, body, single, fctx, hq)
             except Bail as e:
                 self.bailed.append((fctx["qual"], hq, str(e)))
@@ -467,10 +472,12 @@ class Normalizer:
 
             def emit(v, node):
                 val = v if v is not None else ast.copy_location(ast.Constant(value=None), node)
+                if isinstance(tgt, ast.Name) and isinstance(val, ast.Name) and val.id == tgt.id:
+                    return []
                 return [ast.copy_location(ast.Assign(targets=[copy.deepcopy(tgt)], value=val, lineno=node.lineno), node)]
             full = body + [ast.copy_location(ast.Return(value=None), s)]
             out, _ = elim_returns(full, emit)
-            return mark(prelude + [_fold(b) for b in out]), None
+            return mark(prelude + ([_fold(b) for b in out] or [ast.copy_location(ast.Pass(), s)])), None
         if single is not None:
             self._replace(s, c, _fold(copy.deepcopy(single)))
             return [], s
@@ -572,6 +579,41 @@ def apply(repo):
                 for n, v in nz.new_class_consts(k).items():
                     cconsts.setdefault(n, v)
         nz.substitute_consts(mod, cls, fi.node, mconst_cache[mod.name], cconsts)
+    # a new helper whose every use was inlined is no longer part of the analysed program: who-may-call/write rules
+    # must attribute its statements to the functions they were inlined into, not to a second function
+    inlined = {h for _, h, _ in nz.log}
+    nz.dropped = []
+    for hq in sorted(inlined):
+        fi = repo.funcs.get(hq)
+        if fi is None:
+            continue
+        name = fi.name
+        still = False
+        for other in repo.funcs.values():
+            if other is fi:
+                continue
+            for n in ast.walk(other.node):
+                if (isinstance(n, ast.Attribute) and n.attr == name) or (isinstance(n, ast.Name) and n.id == name):
+                    still = True
+                    break
+            if still:
+                break
+        if still:
+            continue
+        repo.funcs.pop(hq, None)
+        if fi.cls is not None:
+            fi.cls.methods.pop(name, None)
+            try:
+                fi.cls.node.body.remove(fi.node)
+            except ValueError:
+                pass
+        else:
+            fi.mod.funcs.pop(name, None)
+            try:
+                fi.mod.tree.body.remove(fi.node)
+            except ValueError:
+                pass
+        nz.dropped.append(hq)
     nz.shape_changes = 0
     if os.environ.get("BSA_SHAPE", "1") != "0":
         seen = set()
